@@ -17,6 +17,8 @@ REGISTRY = {
     "C05": "kverif.props.codec:run_c05",
     "C06": "kverif.props.faults:run_c06",
     "C10": "kverif.props.malformed:run_c10",
+    "C17": "kverif.props.records:run_c17",
+    "C18": "kverif.props.records:run_c18",
 }
 
 
